@@ -13,6 +13,8 @@ def prepare(case):
     if case["op"] == "interop.req":
         from checks import c06
         return c06.prepare(case)
+    if case["op"] == "route.dispatch":
+        return case
     d = case["in"]
     return {"op": case["op"], "in": {"ops": d["ops"], "spec": ops_spec(d["ops"]), "mode": "server-mod", "cfg": {}}}
 
@@ -116,6 +118,44 @@ def cases(ctx):
     return out
 
 
+# ---- the router semantics (Sem/Router.lean) against the real axum router: tables of shape-unique patterns with random method
+# sets, requests built from the patterns (own path, neighbours, with / without trailing slash) under all eight methods -------
+RT_PATTERNS = ["/", "/items", "/items/", "/a/{id}", "/a/{id}/", "/pets/{petId}/toys/{toy}", "/b/x-{id}", "/pets/mine", "/pets/{id}", "/pets/{id}/x", "/pets/mine/x",
+               "/{a}/{b}", "/{a}", "/x-{a}/y", "/v1/users/{u}/posts", "/v1/users/me/posts", "/files/{name}", "/a/b/c", "/a/{id}/c", "/a/b/{c}"]
+RT_METHODS = ["GET", "PUT", "POST", "DELETE", "OPTIONS", "HEAD", "PATCH", "TRACE"]
+
+
+def _shape(p):
+    import re
+    return re.sub(r"\{[^}]*\}", "{}", p)
+
+
+def route_cases(ctx):
+    import re
+    r = ctx.rng
+    out = []
+    vals = ["7", "mine", "x-1", "me", "b", "c", "x", "a%20b", "x-", "zz"]
+    for _ in range(250 if ctx.quick else 5000):
+        pats, seen = [], set()
+        for p in r.sample(RT_PATTERNS, r.randint(1, 6)):
+            if _shape(p) not in seen:
+                seen.add(_shape(p)); pats.append(p)
+        table, hid = [], 0
+        for p in pats:
+            ms = []
+            for m in r.sample(RT_METHODS, r.randint(1, 4)):
+                ms.append([m, hid]); hid += 1
+            table.append({"pattern": p, "methods": ms})
+        reqs = []
+        for p in pats + r.sample(RT_PATTERNS, 2):
+            path = re.sub(r"\{[^}]*\}", lambda _m: r.choice(vals), p)
+            for q in {path, path.rstrip("/") or "/", path + ("" if path.endswith("/") else "/"), path + "/zz", "/" + r.choice(vals)}:
+                for m in (RT_METHODS if r.random() < 0.3 else r.sample(RT_METHODS, 3)):
+                    reqs.append({"method": m, "path": q})
+        out.append({"op": "route.dispatch", "in": {"table": table, "requests": reqs}})
+    return out
+
+
 def run(ctx):
     ctx.translate(["status", "naming"])
     proofs_ok, driver_ok = ctx.build_lean(["Oas3Model.Props.C05"])
@@ -129,6 +169,11 @@ def run(ctx):
         B = 400
         for i in range(0, len(allc), B):
             ctx.classify(ctx.evaluate(allc[i:i + B]), tie="E")
+            if len(ctx.violations) >= 3:
+                break
+        rc = route_cases(ctx)
+        for i in range(0, len(rc), 100):
+            ctx.classify(ctx.evaluate(rc[i:i + 100]), shrink=False, tie="K")
             if len(ctx.violations) >= 3:
                 break
     return ctx.finish(
